@@ -210,8 +210,12 @@ func genReq(t *rapid.T, limit int64) Req {
 		switch r.Comp {
 		case "gzip", "zlib", "deflate":
 			r.Level = rapid.SampledFrom(flateLevels).Draw(t, "level")
-		case "zstd":
-			r.Level = rapid.SampledFrom(zstdLevels).Draw(t, "level")
+		case "zstd": // Validate accepts any level for zstd
+			if rapid.IntRange(0, 3).Draw(t, "zstdLevelClass") == 3 {
+				r.Level = rapid.IntRange(-50, 50).Draw(t, "levelAny")
+			} else {
+				r.Level = rapid.SampledFrom(zstdLevels).Draw(t, "level")
+			}
 		}
 		return r
 	}
@@ -246,15 +250,20 @@ func genReq(t *rapid.T, limit int64) Req {
 
 func gen(t *rapid.T) Script {
 	s := Script{Limit: genLimit(t)}
-	if rapid.IntRange(0, 9).Draw(t, "enabledClass") < 4 {
+	switch c := rapid.IntRange(0, 19).Draw(t, "enabledClass"); {
+	case c < 7:
 		s.DefaultEnabled = true
-	} else {
+	case c < 18:
 		s.Enabled = []string{}
 		for _, i := range rapid.Permutation([]int{0, 1, 2, 3, 4, 5, 6}).Draw(t, "enabledOrder") {
 			if rapid.IntRange(0, 9).Draw(t, "enabledBit") < 7 {
 				s.Enabled = append(s.Enabled, defaultEnabled[i])
 			}
 		}
+	case c == 18: // a single entry
+		s.Enabled = []string{rapid.SampledFrom(defaultEnabled).Draw(t, "enabledOne")}
+	default: // configured but empty: nothing is enabled, not even identity
+		s.Enabled = []string{}
 	}
 	n := rapid.SampledFrom([]int{1, 1, 1, 1, 2, 2, 3}).Draw(t, "nreq")
 	for i := 0; i < n; i++ {
@@ -363,7 +372,7 @@ func send(srv *server, s *Script, r *Req) (*outcome, error) {
 	}
 	// the server side: wait for the chain to return when it was entered
 	entered := func() bool { rec.mu.Lock(); defer rec.mu.Unlock(); return rec.entered > 0 }
-	if !entered() && err != nil {
+	if !entered() && err != nil && wc.got > 0 {
 		// the client gave up before the server got to the request (or it never
 		// arrived): give the server a moment; only sensitivity depends on it
 		for i := 0; i < 50 && !entered(); i++ {
@@ -691,5 +700,5 @@ func evaluate(s *Script, r *Req, o *outcome) (nontrivial bool, labels []string, 
 }
 
 func TestRoundTrip(t *testing.T) {
-	vt.Run(t, c16, vt.N(20000, 600000), gen, run)
+	vt.Run(t, c16, vt.N(20000, 400000), gen, run)
 }
